@@ -410,6 +410,25 @@ Proof.
 Qed.
 Print Assumptions C05_remove_unused_opsets_keeps_versions.
 
+(* InlinePass and the opset tables (Opsets.v): the imports of an inlined function are merged into the model's table; under
+   the compatibility the implementation enforces (it raises on a version mismatch) every domain keeps the version it had in
+   the model's table AND every domain of the function's table resolves, in the merged table, to the function's version — so
+   the nodes already in the main graph and the copied body nodes denote the same operators as before.  The check evaluates
+   inline_opsets_okb on every InlinePass step (old table is a prefix, additions come from function tables, every node of the
+   main graph of the result has an import). *)
+Theorem C05_inline_merges_opset_imports :
+  forall imp fimp, compatible imp fimp ->
+    (forall d v, slookup imp d = Some v -> slookup (merge_imports imp fimp) d = Some v)
+    /\ (forall d v, slookup fimp d = Some v -> slookup (merge_imports imp fimp) d = Some v)
+    /\ (forall fuel m r op, coveredb fuel m r (merge_imports imp fimp) = true -> In op (rec_ops fuel m r) ->
+                             exists v, slookup (merge_imports imp fimp) (op_domain op) = Some v).
+Proof.
+  intros imp fimp Hc. split; [intros d v H; apply merge_keeps; exact H|].
+  split; [intros d v H; apply merge_adds; assumption|].
+  intros fuel m r op H Hin. eapply coveredb_sound; eauto.
+Qed.
+Print Assumptions C05_inline_merges_opset_imports.
+
 (* 0f568df: the former witness (Identity of an outer-scope value as a subgraph output) is kept: outputs stay local *)
 Theorem C05_identity_elim_outer_scope_witness :
   wfb wit_ident = true /\ outputs_localb wit_ident = true /\ outputs_localb (identity_elim 12 wit_ident) = true.
